@@ -24,8 +24,9 @@ QUICK_SCALE = {"C01": 4, "C02": 1, "C03": 3, "C04": 3, "C05": 3, "C06": 3, "C07"
                "C12": 4, "C13": 6, "C14": 8, "C15": 5, "C16": 6, "C17": 4, "C18": 2, "C19": 5, "C20": 8}
 
 
-THOROUGH_SCALE = {"C01": 8, "C02": 2, "C03": 3, "C04": 2, "C05": 7, "C06": 6, "C07": 9, "C08": 9, "C09": 4, "C10": 6, "C11": 12,
-                  "C12": 6, "C13": 12, "C14": 8, "C15": 20, "C16": 15, "C17": 10, "C18": 2.5, "C19": 12, "C20": 15}
+# (halved on Oct 4 after the round-3/4 cells were added: ~14 min per property idle before, ~7-8 min now, so that all 20 fit in 3 h)
+THOROUGH_SCALE = {"C01": 4, "C02": 1, "C03": 1.5, "C04": 1, "C05": 3.5, "C06": 3, "C07": 4.5, "C08": 4.5, "C09": 2, "C10": 3, "C11": 6,
+                  "C12": 3, "C13": 6, "C14": 4, "C15": 10, "C16": 7.5, "C17": 5, "C18": 1.25, "C19": 6, "C20": 7.5}
 
 
 def _write_replay(prop, cell, kind, detail, info, case, sub="found"):
